@@ -521,7 +521,9 @@ func c28NewEnv() *c28Env {
 
 func (e *c28Env) newEVM() *EVM {
 	ctx := BlockContext{
-		CanTransfer: func(db StateDB, addr common.Address, amount *uint256.Int) bool { return db.GetBalance(addr).Cmp(amount) >= 0 },
+		CanTransfer: func(db StateDB, addr common.Address, amount *uint256.Int) bool {
+			return db.GetBalance(addr).Cmp(amount) >= 0
+		},
 		Transfer: func(db StateDB, sender, recipient common.Address, amount *uint256.Int, _ *params.Rules) {
 			db.SubBalance(sender, amount, tracing.BalanceChangeTransfer)
 			db.AddBalance(recipient, amount, tracing.BalanceChangeTransfer)
